@@ -254,7 +254,9 @@ def small_trees(max_entries):
 class Config:
     def __init__(self, recursive=True, root_type="str", full=False, event_filter=None, early=False,
                  split_reads=False, second_filter=None, probes=True, faults=None, seam_points=True,
-                 outside_ops=True):
+                 outside_ops=True, root_form="abs", names="ascii"):
+        self.root_form = root_form            # abs | rel | slash  (C19)
+        self.names = names                    # ascii | utf8 | undecodable  (C19)
         self.recursive = recursive
         self.root_type = root_type
         self.full = full
@@ -269,6 +271,8 @@ class Config:
 
     def tag(self):
         return (f"{'rec' if self.recursive else 'flat'}-{self.root_type}{'-full' if self.full else ''}"
+                f"{'-' + self.root_form if self.root_form != 'abs' else ''}"
+                f"{'-' + self.names if self.names != 'ascii' else ''}"
                 f"{'-early' if self.early else ''}{'-split' if self.split_reads else ''}"
                 f"{'-filter=' + '+'.join(self.second_filter) if self.second_filter else ''}"
                 f"{'-faults=' + repr(sorted(self.faults.items())) if self.faults else ''}")
@@ -318,9 +322,14 @@ class HistoryHarness(ex.Harness):
             self.sched_kwargs = dict(self.sched_kwargs, timer_deviations=True)
 
     # ------------------------------------------------------------------------------------------
+    def mapname(self, p):
+        """Universe path -> real relative name (C19 uses non-ASCII / undecodable names)."""
+        suffix = {"ascii": "", "utf8": "\u00e9", "undecodable": "\udcff"}[self.cfg.names]
+        return "/".join(c + suffix for c in p.split("/")) if suffix else p
+
     def perform(self, R, O, op, state):
         k = op[0]
-        P = lambda p: os.path.join(R, p)
+        P = lambda p: os.path.join(R, self.mapname(p))
         if k == "mknod":
             os.mknod(P(op[1]))
         elif k == "mkdir":
@@ -357,8 +366,8 @@ class HistoryHarness(ex.Harness):
             state["n"] += 1
             os.mkdir(src)
             if op[2] == "tree":
-                os.mkdir(os.path.join(src, "d"))
-                open(os.path.join(src, "f"), "w").close()
+                os.mkdir(os.path.join(src, self.mapname("d")))
+                open(os.path.join(src, self.mapname("f")), "w").close()
             os.rename(src, P(op[1]))
         elif k == "out_touch":
             d = state["out"][op[1]]
@@ -387,16 +396,21 @@ class HistoryHarness(ex.Harness):
         s.env["shim"] = shim
         obs = None
         try:
-            build_tree(R, self.tree0)
+            build_tree(R, {self.mapname(p): k for p, k in self.tree0.items()})
             events = []
             events2 = []
             cur = {"op": -1}
             Rb = os.fsencode(R)
 
+            baseb = os.fsencode(base)
+
             def rel(p):
                 if p == "" or p == b"":
                     return None
                 b = os.fsencode(p)
+                if not b.startswith(b"/"):
+                    b = os.path.join(baseb, b)
+                b = os.path.normpath(b)
                 if b == Rb:
                     return ""
                 if b.startswith(Rb + b"/"):
@@ -408,12 +422,22 @@ class HistoryHarness(ex.Harness):
                     def on_any_event(self, event):
                         lst.append((cur["op"], type(event).__name__, rel(event.src_path), rel(event.dest_path),
                                     event.is_directory, event.is_synthetic,
-                                    type(event.src_path).__name__))
+                                    type(event.src_path).__name__ + "/" + type(event.dest_path).__name__))
                 return Rec()
 
             s.lib_creation = True
             obs = ino.InotifyObserver(generate_full_events=cfg.full)
-            root_arg = Rb if cfg.root_type == "bytes" else R
+            root_arg = R
+            if cfg.root_form == "rel":
+                os.chdir(base)
+                root_arg = "R"
+            elif cfg.root_form == "slash":
+                root_arg = R + "/"
+            if cfg.root_type == "bytes":
+                root_arg = os.fsencode(root_arg)
+            elif cfg.root_type == "path":
+                import pathlib
+                root_arg = pathlib.Path(root_arg)
             filt = [getattr(evm, n) for n in cfg.event_filter] if cfg.event_filter else None
             obs.schedule(rec_into(events), root_arg, recursive=cfg.recursive, event_filter=filt)
             if cfg.second_filter:
@@ -442,6 +466,7 @@ class HistoryHarness(ex.Harness):
             n_events2 = len(events2)
             probes = {}
             if cfg.probes and not model.root_gone:
+                unmap = {self.mapname(p): p for p in ALL}
                 dirs = [""] + sorted(p for p, k in final.items() if k == "d")
                 for j, d in enumerate(dirs):
                     name = f"probe{j}"
@@ -462,6 +487,8 @@ class HistoryHarness(ex.Harness):
                     pass
             finally:
                 shim.cleanup()
+                if cfg.root_form == "rel":
+                    os.chdir("/")
                 shutil.rmtree(base, ignore_errors=True)
 
     def bookkeeping(self, obs, R, O, state):
@@ -872,8 +899,11 @@ def replay_record(rec, checks):
     wd.load()
     envshim.install()
     tag = rec.get("cfg", "rec-str")
-    cfg = Config(recursive=not tag.startswith("flat"), root_type="bytes" if "-bytes" in tag else "str",
-                 full="-full" in tag)
+    cfg = Config(recursive=not tag.startswith("flat"),
+                 root_type="bytes" if "-bytes" in tag else ("path" if "-path" in tag else "str"),
+                 full="-full" in tag, root_form="rel" if "-rel" in tag else ("slash" if "-slash" in tag else "abs"),
+                 names="utf8" if "-utf8" in tag else ("undecodable" if "-undecodable" in tag else "ascii"),
+                 second_filter=(tag.split("-filter=")[1].split("-faults")[0].split("+") if "-filter=" in tag else None))
     hist = [(tuple(op), pace) for op, pace in rec["history"]]
     h = HistoryHarness(rec["tree0"], hist, cfg)
     a = ex.run_one(h, bytes(rec.get("prefix") or []), record_desc=True)
@@ -1208,4 +1238,35 @@ def check_filter(h, res):
                         msg=f"filter {h.cfg.second_filter}: filtered watch delivered {got}, projection of the unfiltered "
                             f"stream is {want}; history={h.name}",
                         fp=f"filter-mismatch filter={'+'.join(h.cfg.second_filter)}: {what}"))
+    return out
+
+
+def check_paths(h, res):
+    """C19: every non-empty event path has the type of the watched path given to schedule() and, converted back
+    with the filesystem encoding and normalised, is the watched path joined with the real relative name of an
+    entry that exists or existed according to the history (or the root itself)."""
+    out = []
+    v = res.value
+    if v is None or res.errors:
+        return out
+    want = "bytes" if h.cfg.root_type == "bytes" else "str"
+    m = Model(h.tree0)
+    known = {""} | {h.mapname(p) for p in m.tree}
+    for op, _ in h.history:
+        m.apply(op)
+        known |= {h.mapname(p) for p in m.tree}
+    for e in v["events"] + v["probe_events"]:
+        tys = e[6].split("/")
+        for which, val, ty in (("src_path", e[2], tys[0]), ("dest_path", e[3], tys[1])):
+            if val is None:
+                continue
+            if ty != want:
+                out.append(dict(kind="path-type", msg=f"{e[1]}.{which} is {ty}, the watch path was given as "
+                                                      f"{h.cfg.root_type}; event={e}; history={h.name}",
+                                fp=f"path-type {which} {ty} for {h.cfg.root_type} root ({e[1]}{' synthetic' if e[5] else ''})"))
+            elif val.startswith("!") or (val not in known and not val.rsplit("/", 1)[-1].startswith("probe")):
+                out.append(dict(kind="path-name", msg=f"{e[1]}.{which} = {val!r} does not name the root joined with the "
+                                                      f"real relative name of any entry of the history; event={e}; "
+                                                      f"history={h.name}",
+                                fp=f"path-name {which} ({e[1]}{' synthetic' if e[5] else ''}) names={h.cfg.names} form={h.cfg.root_form}"))
     return out
